@@ -24,6 +24,7 @@ RULE = (
     "embedded/hashed) audited; non-trivial = at least 2 stored keys"
 )
 ASSUMPTIONS = [
+    "an operation that raised MissingTrieNode on an incomplete database did not happen (it is not part of the contents)",
     "reference construction vt/ref/mpt.py (anchored by 8 ethereum/tests vectors checked at start-up)",
     "keccak backend",
 ]
@@ -32,13 +33,17 @@ EXHAUSTIVE = {
     "thorough": "every insertion order of every subset (size 2..6) of a 6-key universe x 2 value "
                 "assignments; every deletion order from the full 6-key set down to every subset of size >= 3",
 }
+# thorough tier: the repository's own tests replayed under this run-time contract
+REPO_TESTS = {"files": ['tests/core/test_hexary_trie.py', 'tests/core/test_proof.py', 'tests/core/test_hexary_trie_walk.py'], "contracts": ["hexary_root_stored"]}
 FLOORS = {
     "quick": {"root_audits": 30000, "node_rlp_31": 50, "node_rlp_32": 50, "node_rlp_33": 50,
               "feat_branch_value": 500, "feat_embedded_child": 500, "feat_extension": 500,
-              "feat_short_root": 100, "feat_empty_key": 300, "orders": 1000, "kat": 8},
+              "feat_short_root": 100, "feat_empty_key": 300, "orders": 1000, "kat": 8,
+              "op_failed_missing_node": 100},
     "thorough": {"root_audits": 300000, "node_rlp_31": 500, "node_rlp_32": 500, "node_rlp_33": 500,
                  "feat_branch_value": 5000, "feat_embedded_child": 5000, "feat_extension": 5000,
-                 "feat_short_root": 1000, "feat_empty_key": 3000, "orders": 20000, "kat": 8},
+                 "feat_short_root": 1000, "feat_empty_key": 3000, "orders": 20000, "kat": 8,
+                 "op_failed_missing_node": 1000},
 }
 
 ORDER_KEYS = [b"", b"\x12", b"\x12\x34", b"\x12\x35", b"\x12\x34\x56", b"\x21\x34"]
@@ -163,7 +168,9 @@ def run_shard(ctx):
     n = 900 if ctx.tier == "quick" else 6000
     maxops = 25 if ctx.tier == "quick" else 80
     for i in range(n):
-        case = hh.gen_history(rnd, rnd.randint(1, maxops))
+        # every third history also attempts operations on an incomplete database: they fail
+        # atomically (MissingTrieNode) or succeed, and the root must stay canonical afterwards
+        case = hh.gen_history(rnd, rnd.randint(1, maxops), fail_p=0.1 if i % 3 == 2 else 0.0)
         if i < 2:
             ctx.sample(case)
         run_case_guarded(mod, case, ctx)
